@@ -41,11 +41,12 @@ func c17OptHex(b []byte, isNil bool) string {
 // content sniffing; Content-Type preset at client or request level) vs the model `dispatch`.
 func TestVerif_C17_body(t *testing.T) {
 	s := verifh.New(t, "C17", "body",
-		"request configurations: method from GET/HEAD/OPTIONS/POST/PUT/PATCH/DELETE/TRACE/get with AllowGetMethodPayload on/off; body description = none | raw bytes (text, JSON-looking, binary, empty) | value to marshal (struct, map, slice; unmarshallable value) | plain form | ordered form (odd counts too) | combinations; forced multipart with/without a file; Content-Type preset at client and/or request level from {json, xml, soap+xml, text/plain, upper-case XML}; real parseRequestHeader+parseRequestBody; oracle: forbidden methods carry nothing, marshalled bodies decode to the supplied value under a matching type, raw bodies are unchanged; non-trivial = a body was produced")
+		"request configurations: method from GET/HEAD/OPTIONS/POST/PUT/PATCH/DELETE/TRACE/get with AllowGetMethodPayload on/off; body description = none | raw bytes (text, JSON-looking, binary, empty) | value to marshal (struct, map, slice; unmarshallable value) | plain form | ordered form (odd counts too) | combinations; forced multipart with/without a file; Content-Type preset at client and/or request level from {json, xml, +json / +xml suffixes, charset parameters, text/plain, upper- and mixed-case XML types, a parameter mentioning xml}; custom JSON / XML marshal functions set at client level in 1/6; real parseRequestHeader+parseRequestBody; oracle: forbidden methods carry nothing, marshalled bodies decode to the supplied value under a matching type, raw bodies are unchanged; non-trivial = a body was produced")
 	r := s.Rand()
 	n := verifh.N(4000, 80000)
 	methods := []string{"GET", "HEAD", "OPTIONS", "POST", "PUT", "PATCH", "DELETE", "TRACE", "get"}
-	cts := []string{"", "", "application/json", "text/xml", "application/xml; charset=utf-8", "application/soap+xml", "text/plain", "TEXT/XML", "application/vnd.x+json"}
+	cts := []string{"", "", "application/json", "text/xml", "application/xml; charset=utf-8", "application/soap+xml", "text/plain", "TEXT/XML", "application/vnd.x+json",
+		"Application/XML", "application/XHTML+XML; charset=UTF-8", "application/json; charset=utf-8", "application/problem+json", "application/x-www-form-urlencoded", "text/plain; kind=xml"}
 	for i := 0; i < n; i++ {
 		method := verifh.Pick(r, methods)
 		if r.Intn(2) == 0 {
@@ -58,6 +59,18 @@ func TestVerif_C17_body(t *testing.T) {
 			c.EnableAllowGetMethodPayload()
 		} else {
 			c.DisableAllowGetMethodPayload()
+		}
+		customMarshal := r.Intn(6) == 0
+		if customMarshal {
+			// client-level marshal functions: whatever they return is the body
+			c.SetJsonMarshal(func(v interface{}) ([]byte, error) {
+				b, err := json.Marshal(v)
+				return append([]byte("/*custom json*/"), b...), err
+			})
+			c.SetXmlMarshal(func(v interface{}) ([]byte, error) {
+				b, err := xml.Marshal(v)
+				return append([]byte("<!--custom xml-->"), b...), err
+			})
 		}
 		req := c.R()
 		req.Method = method
@@ -82,7 +95,7 @@ func TestVerif_C17_body(t *testing.T) {
 		rawSet := false
 		var marshalVal interface{}
 		marshalSet := false
-		multipartOn := false
+		multipartOn, emptyField, unsafeField := false, false, false
 		var files []c17File
 		kindBits := r.Intn(16)
 		if kindBits&1 != 0 && r.Intn(2) == 0 { // raw body
@@ -155,14 +168,19 @@ func TestVerif_C17_body(t *testing.T) {
 		}
 		if r.Intn(5) == 0 {
 			multipartOn = true
-			// multipart field names must be carriable by a header (stdlib writes them raw)
+			// multipart field names: any bytes (quoted like file names); an empty one is refused
 			for _, k := range append(append([]string{}, rq.keys...), cl.keys...) {
-				if k == "" || c17HasUnsafe(k) {
-					multipartOn = false
+				if k == "" {
+					emptyField = true
+				} else if c17HasUnsafe(k) {
+					unsafeField = true
 				}
 			}
-			if len(cl.keys) > 0 && len(pairs) > 0 {
-				multipartOn = false // one class of known finding per case
+			if len(cl.keys) > 0 && (len(pairs) > 0 || emptyField || unsafeField) {
+				multipartOn, emptyField, unsafeField = false, false, false // one class of known finding per case
+			}
+			if len(pairs) > 0 && len(rq.keys) > 0 && (emptyField || unsafeField) {
+				multipartOn, emptyField, unsafeField = false, false, false
 			}
 			if multipartOn {
 				req.EnableForceMultipart()
@@ -170,6 +188,9 @@ func TestVerif_C17_body(t *testing.T) {
 					files = append(files, c17GenFile(r, req, t.TempDir(), i, false, b, true))
 				}
 			}
+		}
+		if !multipartOn {
+			emptyField, unsafeField = false, false
 		}
 		odd := len(ordArgs)%2 == 1
 		failed, body, ct := c17RunBodyMiddleware(c, req)
@@ -189,6 +210,10 @@ func TestVerif_C17_body(t *testing.T) {
 		// model parameters
 		js, jerr := json.Marshal(marshalVal)
 		xs, xerr := xml.Marshal(marshalVal)
+		if customMarshal {
+			js, xs = append([]byte("/*custom json*/"), js...), append([]byte("<!--custom xml-->"), xs...)
+			s.Count("custom-marshal-funcs")
+		}
 		sniffed := ""
 		if rawSet {
 			sniffed = http.DetectContentType(raw)
@@ -208,6 +233,9 @@ func TestVerif_C17_body(t *testing.T) {
 		case odd:
 			ok = failed
 			s.Count("ordered-odd")
+		case emptyField:
+			ok = failed
+			s.Count("multipart-empty-field-name")
 		case failed:
 			ok = marshalSet && !hasForm && !multipartOn // only an unmarshallable value may fail
 			s.Count("failed")
@@ -222,13 +250,13 @@ func TestVerif_C17_body(t *testing.T) {
 			if eff == "" {
 				eff = clientCT
 			}
-			if strings.Contains(eff, "xml") {
+			if strings.Contains(strings.ToLower(eff), "xml") {
 				s.Count("marshal-xml")
 				ok = xerr == nil && bytes.Equal(body, xs) && ct == eff
 				if ok {
 					if d, isDoc := marshalVal.(*c17Doc); isDoc {
 						var back c17Doc
-						ok = xml.Unmarshal(body, &back) == nil && back.Name == d.Name && back.N == d.N && reflect.DeepEqual(back.Tags, d.Tags)
+						ok = xml.Unmarshal(bytes.TrimPrefix(body, []byte("<!--custom xml-->")), &back) == nil && back.Name == d.Name && back.N == d.N && reflect.DeepEqual(back.Tags, d.Tags)
 					}
 				}
 			} else {
@@ -242,7 +270,7 @@ func TestVerif_C17_body(t *testing.T) {
 				if ok {
 					if d, isDoc := marshalVal.(*c17Doc); isDoc {
 						var back c17Doc
-						ok = json.Unmarshal(body, &back) == nil && back.Name == d.Name && back.N == d.N && reflect.DeepEqual(back.Tags, d.Tags)
+						ok = json.Unmarshal(bytes.TrimPrefix(body, []byte("/*custom json*/")), &back) == nil && back.Name == d.Name && back.N == d.N && reflect.DeepEqual(back.Tags, d.Tags)
 					}
 				}
 			}
@@ -261,6 +289,14 @@ func TestVerif_C17_body(t *testing.T) {
 		case forbid:
 		case odd:
 			class = "c17-ordered-odd"
+		case marshalSet && !hasForm && !multipartOn && c17XMLOnlyByCase(reqCT, clientCT):
+			class = "c17-xml-type-case"
+			s.Count("xml-type-not-lower-case")
+		case emptyField:
+			class = "c17-field-name-empty"
+		case unsafeField:
+			class = "c17-field-name-ctl"
+			s.Count("multipart-ctl-field-name")
 		case multipartOn && len(cl.keys) > 0:
 			class = "c17-client-form-multipart"
 		case len(pairs) > 0 && (len(rq.keys) > 0 || len(cl.keys) > 0):
@@ -280,4 +316,13 @@ func TestVerif_C17_body(t *testing.T) {
 				method, allowGet, multipartOn, rq.values(), cl.values(), ordArgs, c17DescribeFiles(files), marshalSet, marshalVal, rawSet, reqCT, clientCT, failed, c17Trunc(string(body), 120), ct))
 	}
 	s.Finish()
+}
+
+// c17XMLOnlyByCase: the Content-Type in effect names XML, but not in lower case.
+func c17XMLOnlyByCase(reqCT, clientCT string) bool {
+	eff := reqCT
+	if eff == "" {
+		eff = clientCT
+	}
+	return strings.Contains(strings.ToLower(eff), "xml") && !strings.Contains(eff, "xml")
 }
